@@ -26,7 +26,7 @@ ASSUMPTIONS = ["darr.array.readcodetxt / darr.raggedarray.readcodetxt applied to
                "mutators are issued in mode r+ only"]
 EXHAUSTIVE = None
 MUST_HIT = ['ragged-len-5', 'ragged-len-6', 'ragged-len-7', 'meta-created', 'meta-deleted', 'overwrite-recreate', 'growth:append',
-            'growth:iterappend', 'array-history', 'ragged-history', 'copy', 'ops-inside-open-context']
+            'growth:iterappend', 'growth:generated', 'failed-append-in-history', 'array-history', 'ragged-history', 'copy', 'ops-inside-open-context']
 
 
 def execute(ctx, spec):
@@ -93,6 +93,8 @@ def task_random(ctx, col, shard, n):
     hyp_search(ctx, col, sa, lambda s: execute(ctx, s), shard_seed(ctx, shard), n)
     sr = rhist.st_ragged_history(max_ops=ctx.pick(8, 25), extra=('meta', 'overwrite', 'copy')).map(lambda s: dict(s, kind='ragged'))
     hyp_search(ctx, col, sr, lambda s: execute(ctx, s), shard_seed(ctx, shard) + 3, max(10, n // 3))
+    sg = rhist.st_growth_history(max_ops=ctx.pick(10, 20)).map(lambda s: dict(s, kind='ragged', growth='generated'))
+    hyp_search(ctx, col, sg, lambda s: execute(ctx, s), shard_seed(ctx, shard) + 5, max(10, n // 3))
 
 
 def tasks(ctx):
